@@ -328,6 +328,8 @@ def literals():
 
     sk1, sk2 = 0x1234567890ABCDEF1234567890ABCDEF, 0x0FEDCBA0987654321
     out = {"sk1": sk1, "sk2": sk2, "pk1": MB.sk_to_pk(sk1), "pk2": MB.sk_to_pk(sk2), "pop1": MB.pop_prove(sk1)}
+    out["sigpk1:pop"] = MB.sign("pop", sk1, out["pk1"])
+    out["sigpk1:basic"] = MB.sign("basic", sk1, out["pk1"])
     for s in SUITES:
         out["sig1:" + s] = MB.sign(s, sk1, b"msg one")
         out["sig2:" + s] = MB.sign(s, sk2, b"msg two")
@@ -585,3 +587,30 @@ def _o():
 def _o():
     S = I("py_ecc.secp256k1")
     return (S.ecdsa_raw_sign, [b"\x35" * 32, b"\x47" * 32], {})
+
+
+# ------------------------------------------------------------------ the key bytes as an ordinary message (two tags, one suite)
+@op("Sign:message-is-own-pk:pop", 2)
+def _o():
+    return (I("py_ecc.bls").G2ProofOfPossession.Sign, [LIT["sk1"], LIT["pk1"]], {})
+
+
+@op("Verify:message-is-own-pk:pop", 3)
+def _o():
+    return (I("py_ecc.bls").G2ProofOfPossession.Verify, [LIT["pk1"], LIT["pk1"], LIT["sigpk1:pop"]], {})
+
+
+@op("Verify:message-is-own-pk:basic", 3)
+def _o():
+    return (I("py_ecc.bls").G2Basic.Verify, [LIT["pk1"], LIT["pk1"], LIT["sigpk1:basic"]], {})
+
+
+@op("PopVerify:message-signature-presented-as-proof", 3)
+def _o():
+    return (I("py_ecc.bls").G2ProofOfPossession.PopVerify, [LIT["pk1"], LIT["sigpk1:pop"]], {})
+
+
+@op("hash_to_G2:long-message", 2)
+def _o():
+    H = I("py_ecc.bls.hash_to_curve")
+    return (H.hash_to_G2, [b"\x5a" * 70001, b"another tag", hashlib.sha256], {})
